@@ -95,10 +95,11 @@ def sig_source(name, sig, drop=(), method=False, is_async=False):
     return "%sdef %s(%s):\n    _ran(%r)\n    return %s\n" % ("async " if is_async else "", name, ", ".join(parts), name, ret)
 
 
-def call_exprs(st, names, val):
-    """python source of (args tuple, kwargs dict) for call shape st with value expressions val[token]"""
+def call_exprs(st, names, val, foreign="zz"):
+    """python source of (args tuple, kwargs dict) for call shape st with value expressions val[token]; `foreign` spells the
+    keyword no parameter has (any string is a legal keyword through ** expansion - also '*' and '**')"""
     args = [val(("pos", j)) for j in range(st["npos"])]
-    kwargs = {("zz" if i == 0 else names[i - 1]): val(("kw", i)) for i in st["kw"]}
+    kwargs = {(foreign if i == 0 else names[i - 1]): val(("kw", i)) for i in st["kw"]}
     return "(" + "".join(a + ", " for a in args) + ")", "{" + ", ".join("%r: %s" % (k, v) for k, v in sorted(kwargs.items())) + "}"
 
 
@@ -119,6 +120,8 @@ def build_program(states, rng, per_sig=6, kinds=("function",), max_sigs=None):
         sig = json.loads(sj); names = ["p%d" % i for i in range(1, len(sig) + 1)]
         kind = kinds[n % len(kinds)]
         fname = "f%d" % n
+        fk = ("zz", "*", "zz", "**", "zz", "self")[n % 6] if kinds == ("function",) else "zz"
+        cx = lambda st_, names_, val_, fk=fk: call_exprs(st_, names_, val_, foreign=fk)
         src.append(sig_source(fname, sig, method=(kind == "method"), is_async=(kind == "async")))
         # value of parameter i when explicitly passed; defaults are the declared defaults
         pv = {i: BASES[(i + n) % len(BASES)] for i in range(1, len(sig) + 1)}
@@ -157,19 +160,19 @@ def build_program(states, rng, per_sig=6, kinds=("function",), max_sigs=None):
         elif n % 6 == 1:
             base.update(verbose=1, store="_V1")          # the default verbosity
         for st in chosen:
-            a, k = call_exprs(st, names, val_for(st))
+            a, k = cx(st, names, val_for(st))
             add(dict(base, args=a, kwargs=k, mode="check"), role="check_before", cls=(n, image(st)))
             add(dict(base, args=a, kwargs=k, mode="call"), role="call", cls=(n, image(st)))
             # equivalent forms: other shapes with the same image
             for st2 in [s for s in classes[image(st)] if s is not st][:2]:
-                a2, k2 = call_exprs(st2, names, val_for(st2))
+                a2, k2 = cx(st2, names, val_for(st2))
                 add(dict(base, args=a2, kwargs=k2, mode="call"), role="equiv", cls=(n, image(st)))
             # rebuilt containers (other insertion order) are the same value
             toks = [("pos", j) for j in range(st["npos"])] + [("kw", i) for i in st["kw"] if i != 0 and sig[i - 1]["k"] != "PO"]
             for tok in toks:
                 v = val_for(st)(tok)
                 if v in REBUILT:
-                    a2, k2 = call_exprs(st, names, val_for(st, {tok: REBUILT[v]}))
+                    a2, k2 = cx(st, names, val_for(st, {tok: REBUILT[v]}))
                     add(dict(base, args=a2, kwargs=k2, mode="call"), role="equiv", cls=(n, image(st)))
                     break
             # a default spelled out (positionally or by keyword) is the same call
@@ -180,7 +183,7 @@ def build_program(states, rng, per_sig=6, kinds=("function",), max_sigs=None):
                     if b2[i - 1][0] == "dflt" or any(x[0] != y[0] or (x[0] in ("star", "starstar") and x != y) for j, (x, y) in enumerate(zip(st["res"][1], b2)) if j != i - 1):
                         continue
                     tok = ("pos", b2[i - 1][1]) if b2[i - 1][0] == "pos" else ("kw", i)
-                    a2, k2 = call_exprs(st2, names, val_for(st2, {tok: "('dflt', %d)" % i}))
+                    a2, k2 = cx(st2, names, val_for(st2, {tok: "('dflt', %d)" % i}))
                     add(dict(base, args=a2, kwargs=k2, mode="call"), role="equiv", cls=(n, image(st)))
                     break
             add(dict(base, args=a, kwargs=k, mode="check"), role="check_after", cls=(n, image(st)))
@@ -190,7 +193,7 @@ def build_program(states, rng, per_sig=6, kinds=("function",), max_sigs=None):
                 tok = toks[rng.randrange(len(toks))]
                 v = val_for(st)(tok)
                 for alt in PARTNERS.get(v, [])[:2]:
-                    a2, k2 = call_exprs(st, names, val_for(st, {tok: alt}))
+                    a2, k2 = cx(st, names, val_for(st, {tok: alt}))
                     add(dict(base, args=a2, kwargs=k2, mode="call"), role="perturbed", cls=(n, image(st) + "|" + str(tok) + alt))
         # ignore list: another value of an ignored parameter is the same call
         named = [i for i, p in enumerate(sig, 1) if p["k"] in ("PK", "KO")]
@@ -199,10 +202,10 @@ def build_program(states, rng, per_sig=6, kinds=("function",), max_sigs=None):
             src.append(sig_source(fname + "_ig", sig, drop=(ig,)))
             cand = [s for s in shapes if named[-1] in s["kw"]]
             if cand:
-                st = cand[0]; a, k = call_exprs(st, names, val_for(st))
+                st = cand[0]; a, k = cx(st, names, val_for(st))
                 b2 = dict(f=fname + "_ig", kind="function", ignore=[ig])
                 add(dict(b2, args=a, kwargs=k, mode="call"), role="call", cls=(n, "ig" + image(st)))
-                a2, k2 = call_exprs(st, names, val_for(st, {("kw", named[-1]): "('other value',)"}))
+                a2, k2 = cx(st, names, val_for(st, {("kw", named[-1]): "('other value',)"}))
                 add(dict(b2, args=a2, kwargs=k2, mode="check"), role="check_after", cls=(n, "ig" + image(st)))
                 add(dict(b2, args=a2, kwargs=k2, mode="call"), role="equiv", cls=(n, "ig" + image(st)))
         # two partials over the same function that differ only in a frozen argument are different functions
@@ -223,7 +226,7 @@ def build_program(states, rng, per_sig=6, kinds=("function",), max_sigs=None):
                     add(dict(f=fname + "_wp", kind="partial", wrapped=True, frozen="(%s,)" % fz, args=rest, kwargs="{}", mode="shelve"), role="equiv", cls=(n, "wpartial", fz))
         # the same function cached through two Memory objects (two directories)
         if kind == "function" and n % 4 == 1:
-            st = shapes[0]; a, k = call_exprs(st, names, val_for(st))
+            st = shapes[0]; a, k = cx(st, names, val_for(st))
             for store in ("_A", "_B"):
                 add(dict(base, args=a, kwargs=k, mode="call", store=store), role="call", cls=(n, "store" + store, image(st)))
                 add(dict(base, args=a, kwargs=k, mode="check", store=store), role="check_after", cls=(n, "store" + store, image(st)))
@@ -240,13 +243,13 @@ def build_program(states, rng, per_sig=6, kinds=("function",), max_sigs=None):
                     add(dict(base, args=apart, kwargs="{}", mode="call"), role="equiv", cls=(n, "shared", lit))
         # decorating an already cached function again (e.g. to add an ignore list) still gives a caching wrapper of its kind
         if kind in ("function", "async") and n % 5 == 3:
-            st = shapes[0]; a, k = call_exprs(st, names, val_for(st))
+            st = shapes[0]; a, k = cx(st, names, val_for(st))
             add(dict(base, args=a, kwargs=k, mode="call", redecorate=True), role="call", cls=(n, "redecorated", image(st)))
             add(dict(base, args=a, kwargs=k, mode="check", redecorate=True), role="check_after", cls=(n, "redecorated", image(st)))
             add(dict(base, args=a, kwargs=k, mode="call", redecorate=True), role="equiv", cls=(n, "redecorated", image(st)))
         # one relative location used from two working directories: same spelling, two directories
         if kind == "function" and n % 4 == 2:
-            st = shapes[0]; a, k = call_exprs(st, names, val_for(st))
+            st = shapes[0]; a, k = cx(st, names, val_for(st))
             for store in ("_REL@A", "_REL@B"):
                 add(dict(base, args=a, kwargs=k, mode="call", store=store), role="call", cls=(n, "store" + store, image(st)))
                 add(dict(base, args=a, kwargs=k, mode="check", store=store), role="check_after", cls=(n, "store" + store, image(st)))
